@@ -290,7 +290,36 @@ func checkC08(c *fw.Ctx) {
 				if sides == "" {
 					c.Undecided("1 coverage", construct, "no pass over the "+name+" maps was recognised")
 				} else {
-					c.Check(strings.Contains(sides, "old;") && strings.Contains(sides, "new;"), "1 coverage", construct, c.P.Pos(f.Pos()), sides, fmt.Sprintf("map %s: passes found over [%s]; both the old and the new entries must be visited (additions, changes and removals)", name, sides))
+					both := strings.Contains(sides, "old;") && strings.Contains(sides, "new;")
+					if !both {
+						// a pass over a map the rule could not attribute to one side (the contents are
+						// held in fields of a comparison object, the maps are put in a list first, ...)
+						// may be the missing one
+						unattributed := ""
+						for _, fnName := range fns {
+							for _, rf := range fw.RegionOf(fam[fnName], nil) {
+								for _, b := range rf.Blocks {
+									for _, ins := range b.Instrs {
+										rg, isR := ins.(*ssa.Range)
+										if !isR {
+											continue
+										}
+										if _, isMap := rg.X.Type().Underlying().(*types.Map); !isMap {
+											continue
+										}
+										if s := fw.Sig(rg.X); !strings.HasPrefix(s, "*&param:old") && !strings.HasPrefix(s, "*&param:new") && !strings.HasPrefix(s, "makemap") {
+											unattributed = s
+										}
+									}
+								}
+							}
+						}
+						if unattributed != "" {
+							c.Undecided("1 coverage", construct, fmt.Sprintf("passes recognised over [%s]; a further pass ranges over %s, which could not be attributed to the old or the new content", sides, unattributed))
+							continue
+						}
+					}
+					c.Check(both, "1 coverage", construct, c.P.Pos(f.Pos()), sides, fmt.Sprintf("map %s: passes found over [%s]; both the old and the new entries must be visited (additions, changes and removals)", name, sides))
 				}
 			} else {
 				found := false
@@ -520,30 +549,74 @@ func checkPLHandler(c *fw.Ctx, fn *ssa.Function) {
 	}
 	c.CheckGate(rule, fn, "powerLevelsEventAllowed", fw.GuardCallErrNil("CheckPowerLevelEvent", fw.NameIs("(gmsl.IRoomVersion).CheckPowerLevelEvent")), succ2)
 	tails := fw.CallsTo(fn, false, fw.NameIs("gmsl.checkUserLevels"))
-	c.Check(len(tails) == 1, rule, "powerLevelsEventAllowed ends in checkUserLevels", c.P.Pos(fn.Pos()), "", "the user-level comparison is not the final verdict")
-	// arguments
-	want := map[string][]string{
-		"gmsl.checkEventLevels": {"(*gmsl.allowerContext).userPowerLevel(recv,(gmsl.PDU).SenderID(param:event))", "*recv.powerLevels", "gmsl.NewPowerLevelContentFromEvent(param:event)#0"},
-		"gmsl.checkUserLevels":  {"(*gmsl.allowerContext).userPowerLevel(recv,(gmsl.PDU).SenderID(param:event))", "(gmsl.PDU).SenderID(param:event)", "*recv.powerLevels", "gmsl.NewPowerLevelContentFromEvent(param:event)#0"},
+	c.Expect(len(tails) == 1, rule, "powerLevelsEventAllowed ends in checkUserLevels", c.P.Pos(fn.Pos()), "", "no single call of checkUserLevels in powerLevelsEventAllowed itself")
+	// arguments, by role: each is checked for what it must come from; taking it from the other
+	// content (current <-> proposed) is the evidence of a violation, anything else is not decided
+	roleOf := map[string][]string{
+		"gmsl.checkEventLevels":                     {"level", "current", "proposed"},
+		"gmsl.checkUserLevels":                      {"level", "sender", "current", "proposed"},
+		"(gmsl.IRoomVersion).CheckPowerLevelEvent": {"sender", "create", "current", "proposed"},
 	}
 	for _, call := range fw.Calls(fn) {
-		w, ok := want[fw.CalleeName(call)]
+		roles, ok := roleOf[fw.CalleeName(call)]
 		if !ok {
 			continue
 		}
-		var got []string
-		for _, a := range call.Common().Args {
-			got = append(got, strings.TrimPrefix(fw.Sig(a), "*&"))
+		args := call.Common().Args
+		if call.Common().IsInvoke() {
+			// the receiver of an interface call is not among Args
+		} else if len(args) == len(roles)+1 {
+			args = args[1:]
 		}
-		c.Check(strings.Join(got, " ; ") == strings.Join(w, " ; "), rule, strings.TrimPrefix(fw.CalleeName(call), "gmsl.")+" receives (sender's current level, current levels, proposed levels)", c.P.Pos(call.Pos()), "", "arguments are ["+strings.Join(got, " ; ")+"]")
-	}
-	for _, call := range fw.CallsTo(fn, false, fw.NameIs("(gmsl.IRoomVersion).CheckPowerLevelEvent")) {
-		var got []string
-		for _, a := range call.Common().Args {
-			got = append(got, strings.TrimPrefix(fw.Sig(a), "*&"))
+		if len(args) != len(roles) {
+			c.Undecided(rule, strings.TrimPrefix(fw.CalleeName(call), "gmsl.")+" receives its arguments in their roles", "unexpected arity")
+			continue
 		}
-		w := "(gmsl.PDU).SenderID(param:event) ; *recv.createEvent ; *recv.powerLevels ; gmsl.NewPowerLevelContentFromEvent(param:event)#0"
-		c.Check(strings.Join(got, " ; ") == w, rule, "CheckPowerLevelEvent receives (sender, create event, current levels, proposed levels)", c.P.Pos(call.Pos()), "", "arguments are ["+strings.Join(got, " ; ")+"]")
+		bad, unk := "", ""
+		for i, role := range roles {
+			sg := strings.TrimPrefix(fw.Sig(args[i]), "*&")
+			proposedSrc := strings.Contains(sg, "NewPowerLevelContentFromEvent(")
+			currentSrc := strings.Contains(sg, "recv.powerLevels")
+			switch role {
+			case "level":
+				switch {
+				case strings.Contains(sg, "userPowerLevel(") && strings.Contains(sg, ".SenderID(param:event)"):
+				case proposedSrc:
+					bad = "the sender's level is read from the proposed content (" + sg + ")"
+				default:
+					unk = sg
+				}
+			case "current":
+				switch {
+				case currentSrc && !proposedSrc:
+				case proposedSrc:
+					bad = "the current levels argument is the proposed content (" + sg + ")"
+				default:
+					unk = sg
+				}
+			case "proposed":
+				switch {
+				case proposedSrc && !currentSrc:
+				case currentSrc:
+					bad = "the proposed levels argument is the current content (" + sg + ")"
+				default:
+					unk = sg
+				}
+			case "sender":
+				if !strings.Contains(sg, ".SenderID(param:event)") {
+					unk = sg
+				}
+			}
+		}
+		construct := strings.TrimPrefix(fw.CalleeName(call), "gmsl.") + " receives its arguments in their roles"
+		switch {
+		case bad != "":
+			c.Fail(rule, construct, c.P.Pos(call.Pos()), bad)
+		case unk != "":
+			c.Undecided(rule, construct, "an argument could not be attributed: "+unk)
+		default:
+			c.Ok(rule, construct, c.P.Pos(call.Pos()), "")
+		}
 	}
 	if w := mustFunc(c, rule, "(RoomVersionImpl).CheckPowerLevelEvent"); w != nil {
 		ok := false
